@@ -35,7 +35,39 @@ const OtherDenom = "uatom"
 // Funds is the signer's balance in each denomination (fits a TLC integer).
 const Funds = int64(1500000000)
 
-const createMethod = "/akash.deployment.v1beta1.Msg/CreateDeployment"
+const (
+	createMethod = "/akash.deployment.v1beta1.Msg/CreateDeployment"
+	updateMethod = "/akash.deployment.v1beta1.Msg/UpdateDeployment"
+)
+
+// wireMsg: a message the node receives as bytes.
+type wireMsg interface {
+	sdk.Msg
+	Marshal() ([]byte, error)
+	Unmarshal([]byte) error
+}
+
+// decode is the protobuf round trip: what the node works on is what it decoded, never the sender's struct.
+func decode(msg wireMsg) (wireMsg, string, error) {
+	bz, err := msg.Marshal()
+	if err != nil {
+		return nil, "", err
+	}
+	var out wireMsg
+	var method string
+	switch msg.(type) {
+	case *dtypes.MsgCreateDeployment:
+		out, method = &dtypes.MsgCreateDeployment{}, createMethod
+	case *dtypes.MsgUpdateDeployment:
+		out, method = &dtypes.MsgUpdateDeployment{}, updateMethod
+	default:
+		return nil, "", fmt.Errorf("unsupported message type %T", msg)
+	}
+	if err := out.Unmarshal(bz); err != nil {
+		return nil, "", err
+	}
+	return out, method, nil
+}
 
 // storeNames: every KV store of the application; "rejected without effect" is judged over all of them.
 var storeNames = []string{
@@ -123,20 +155,15 @@ type Outcome struct {
 // Deliver runs msg on ctx the way baseapp.runTx runs a transaction's message (minus the ante handler):
 // protobuf round trip (the node only ever sees decoded bytes), ValidateBasic, then the module's handler on a
 // cache branch that is written back only on success. A panic anywhere is a rejection (runTx recovers it).
-func (c *Chain) Deliver(ctx sdk.Context, msg *dtypes.MsgCreateDeployment) (out Outcome) {
+func (c *Chain) Deliver(ctx sdk.Context, msg wireMsg) (out Outcome) {
 	defer func() {
 		if r := recover(); r != nil {
 			out = Outcome{Accepted: false, Err: fmt.Sprint("panic: ", r), Panicked: true, Stage: out.Stage}
 		}
 	}()
 	out.Stage = "encode"
-	bz, err := msg.Marshal()
+	wire, method, err := decode(msg)
 	if err != nil {
-		out.Err = err.Error()
-		return out
-	}
-	wire := &dtypes.MsgCreateDeployment{}
-	if err := wire.Unmarshal(bz); err != nil {
 		out.Err = err.Error()
 		return out
 	}
@@ -146,9 +173,9 @@ func (c *Chain) Deliver(ctx sdk.Context, msg *dtypes.MsgCreateDeployment) (out O
 		return out
 	}
 	out.Stage = "handler"
-	h := c.App.MsgServiceRouter().Handler(createMethod)
+	h := c.App.MsgServiceRouter().Handler(method)
 	if h == nil {
-		panic("no handler registered for " + createMethod)
+		panic("no handler registered for " + method)
 	}
 	cctx, write := ctx.CacheContext()
 	if _, err := h(cctx, wire); err != nil {
